@@ -238,6 +238,27 @@ var ruleBOMTable = &core.Rule{ID: "R07.3", Min: 7,
 				okShape, why = false, "a return that is not `name of the current entry` under HasPrefix(input, mark of the current entry)"
 			}
 		}
+		// a prefix match must lead to that return unconditionally: no further test may send a matching entry back to the loop
+		for _, b := range f.Blocks {
+			iff := core.IfOf(b)
+			if iff == nil {
+				continue
+			}
+			cond, pos := core.StripNot(iff.Cond, true)
+			call, ok := cond.(*ssa.Call)
+			if !ok || !core.CalleeIs(&call.Call, "bytes", "HasPrefix") || call.Call.Args[0] != ssa.Value(f.Params[0]) {
+				continue
+			}
+			hit := b.Succs[0]
+			if !pos {
+				hit = b.Succs[1]
+			}
+			for x := range core.Reach(hit) {
+				if x == r.Header {
+					okShape, why = false, "after a byte-order mark matched, a further condition can still skip the entry: the mark's own charset is then not what is reported"
+				}
+			}
+		}
 		s.Check(okShape, "lookup shape", c.Pos(f.Pos()), "first prefixing entry wins, else \"\"", why)
 	}}
 
